@@ -331,4 +331,178 @@ theorem outsT_etodVT (caps : Caps) (e : List TEv) : outsT (etodVT caps e) = outs
     simp only [etodVT, outsT] at ih ⊢
     cases x <;> simp_all [List.filter_cons] <;> split <;> simp_all
 
+/-! ### the stream pipeline `ExtendedToStreamDecorator` → `StreamToExtendedDecorator` → `PlaceHolder.run` -/
+/-- the part of an `ExtendedToStreamDecorator` that matters for tags -/
+structure E2sAbs where
+  started : Bool := false
+  ctx : TagCtx := {}
+  inprog : List Nat := []
+deriving DecidableEq, Repr
+
+/-- `if not self._started: self.startTestRun()` -/
+def e2sAutoT (a : E2sAbs) : E2sAbs × List TEv := if a.started then (a, []) else ({ started := true }, [.run])
+
+def e2sNextT (a : E2sAbs) : TEv → E2sAbs
+  | .run => { started := true }
+  | .start t =>
+      let a := (e2sAutoT a).1
+      { a with inprog := if a.inprog.contains t then a.inprog else a.inprog ++ [t], ctx := a.ctx.push }
+  | .stop _ => { a with ctx := a.ctx.pop }
+  | .tags n g => if a.started then { a with ctx := a.ctx.change n g } else a
+  | .out t => let a := (e2sAutoT a).1; { a with inprog := a.inprog.filter (· != t) }
+  | .stopRun => if a.started then { a with inprog := [] } else a
+
+/-- what `PlaceHolder.run` replays for one finished test -/
+def phBlock (t : Nat) (T : TagSet) : List TEv := [.tags T 0, .start t, .out t, .stop t, .tags 0 T]
+
+def e2sEmitT (a : E2sAbs) : TEv → List TEv
+  | .run => [.run]
+  | .start _ => (e2sAutoT a).2
+  | .out t => (e2sAutoT a).2 ++ phBlock t (e2sAutoT a).1.ctx.cur
+  | .stopRun => if a.started then (a.inprog.reverse.flatMap fun t => phBlock t 0) ++ [.stopRun] else []
+  | _ => []
+
+def e2sVT : E2sAbs → List TEv → List TEv
+  | _, [] => []
+  | a, x :: e => e2sEmitT a x ++ e2sVT (e2sNextT a x) e
+
+/-- the `test_tags` of the final status events -/
+def sentT : E2sAbs → List TEv → List (Nat × TagSet)
+  | _, [] => []
+  | a, .out t :: e => (t, (e2sAutoT a).1.ctx.cur) :: sentT (e2sNextT a (.out t)) e
+  | a, x :: e => sentT (e2sNextT a x) e
+
+theorem e2sVT_append (a : E2sAbs) (e e' : List TEv) :
+    e2sVT a (e ++ e') = e2sVT a e ++ e2sVT (e.foldl e2sNextT a) e' := by
+  induction e generalizing a with
+  | nil => rfl
+  | cons x e ih => simp [e2sVT, ih]
+
+theorem sentT_append (a : E2sAbs) (e e' : List TEv) :
+    sentT a (e ++ e') = sentT a e ++ sentT (e.foldl e2sNextT a) e' := by
+  induction e generalizing a with
+  | nil => rfl
+  | cons x e ih => cases x <;> simp [sentT, ih]
+
+theorem change_from_zero (T : TagSet) : TagSet.change 0 T 0 = T := by
+  apply ext; intro i; simp [testBit_change]
+
+theorem change_to_zero (T : TagSet) : TagSet.change T 0 T = 0 := by
+  apply ext; intro i; simp [testBit_change]
+
+/-- the context of the result behind the pipeline between two replayed tests -/
+def C0 : TagCtx := { cur := 0, parents := [] }
+
+theorem seenT_block (t : Nat) (T : TagSet) (e : List TEv) : seenT C0 (phBlock t T ++ e) = (t, T) :: seenT C0 e := by
+  simp [phBlock, seenT, stepT, C0, TagCtx.change, TagCtx.push, TagCtx.pop, change_from_zero, change_to_zero]
+
+def InvE (p cur : Nat) (a : E2sAbs) (R : TagCtx) : Prop :=
+  a.started = true ∧ a.ctx = R ∧ a.inprog = (if p = 1 then [cur] else [])
+
+/-- **behind the stream pipeline every test is seen with the reporter's tags at its outcome**, and so are the
+final status events -/
+theorem e2s_seen : ∀ (e : List TEv) (p cur : Nat) (R : TagCtx) (a : E2sAbs),
+    InvE p cur a R → wfT p cur e = true →
+    seenT C0 (e2sVT a e) = seenT R e ∧ sentT a e = seenT R e ∧ outsT (e2sVT a e) = outsT e
+  | [], _, _, _, _, _, _ => ⟨rfl, rfl, rfl⟩
+  | x :: e, p, cur, R, ⟨st, ctx, inp⟩, ⟨hs, hc, hi⟩, hw => by
+      simp only at hs hc hi
+      subst hs; subst hc
+      have hauto : ∀ inp', e2sAutoT ⟨true, ctx, inp'⟩ = (⟨true, ctx, inp'⟩, []) := fun _ => rfl
+      cases x with
+      | run =>
+        simp only [wfT, Bool.and_eq_true, beq_iff_eq] at hw
+        obtain ⟨rfl, hw⟩ := hw
+        have ih := e2s_seen e 0 cur {} { started := true } ⟨rfl, rfl, by simp⟩ hw
+        simp only [e2sVT, e2sEmitT, e2sNextT, List.singleton_append, seenT, stepT, sentT, outsT, List.filterMap_cons]
+        exact ih
+      | stopRun =>
+        simp only [wfT, Bool.and_eq_true, beq_iff_eq] at hw
+        obtain ⟨rfl, hw⟩ := hw
+        simp only [if_neg (by decide : ¬ (0 = 1))] at hi
+        subst hi
+        have ih := e2s_seen e 0 cur ctx ⟨true, ctx, []⟩ ⟨rfl, rfl, by simp⟩ hw
+        simpa only [e2sVT, e2sEmitT, e2sNextT, ite_true, List.reverse_nil, List.flatMap_nil, List.nil_append,
+          List.singleton_append, seenT, stepT, sentT, outsT, List.filterMap_cons] using ih
+      | start t =>
+        simp only [wfT, Bool.and_eq_true, beq_iff_eq] at hw
+        obtain ⟨rfl, hw⟩ := hw
+        simp only [if_neg (by decide : ¬ (0 = 1))] at hi
+        subst hi
+        have ih := e2s_seen e 1 t ctx.push ⟨true, ctx.push, [t]⟩ ⟨rfl, rfl, by simp⟩ hw
+        simpa only [e2sVT, e2sEmitT, e2sNextT, hauto, List.contains_nil, List.nil_append, Bool.false_eq_true, ite_false,
+          seenT, stepT, sentT, outsT, List.filterMap_cons] using ih
+      | stop t =>
+        simp only [wfT, Bool.and_eq_true, Bool.or_eq_true, beq_iff_eq] at hw
+        obtain ⟨⟨hp, _⟩, hw⟩ := hw
+        have hi' : inp = [] := by rcases hp with rfl | rfl <;> simpa using hi
+        subst hi'
+        have ih := e2s_seen e 0 0 ctx.pop ⟨true, ctx.pop, []⟩ ⟨rfl, rfl, by simp⟩ hw
+        simpa only [e2sVT, e2sEmitT, e2sNextT, List.nil_append, seenT, stepT, sentT, outsT, List.filterMap_cons] using ih
+      | tags n g =>
+        simp only [wfT, Bool.and_eq_true] at hw
+        have ih := e2s_seen e p cur (ctx.change n g) ⟨true, ctx.change n g, inp⟩ ⟨rfl, rfl, hi⟩ hw.2
+        simpa only [e2sVT, e2sEmitT, e2sNextT, ite_true, List.nil_append, seenT, stepT, sentT, outsT,
+          List.filterMap_cons] using ih
+      | out t =>
+        simp only [wfT, Bool.or_eq_true, Bool.and_eq_true, beq_iff_eq] at hw
+        have hf : inp.filter (· != t) = [] := by
+          rcases hw with ⟨⟨rfl, rfl⟩, _⟩ | ⟨rfl, _⟩ <;> simp [hi]
+        have fin : (seenT C0 (e2sVT ⟨true, ctx, []⟩ e) = seenT ctx e ∧ sentT ⟨true, ctx, []⟩ e = seenT ctx e ∧
+            outsT (e2sVT ⟨true, ctx, []⟩ e) = outsT e) →
+            seenT C0 (e2sVT ⟨true, ctx, inp⟩ (.out t :: e)) = seenT ctx (.out t :: e) ∧
+            sentT ⟨true, ctx, inp⟩ (.out t :: e) = seenT ctx (.out t :: e) ∧
+            outsT (e2sVT ⟨true, ctx, inp⟩ (.out t :: e)) = outsT (.out t :: e) := by
+          intro ih
+          simp only [e2sVT, e2sEmitT, e2sNextT, hauto, hf, List.nil_append, seenT_block, seenT, sentT]
+          refine ⟨by rw [ih.1], by rw [ih.2.1], ?_⟩
+          have := ih.2.2
+          simp only [outsT, List.filterMap_append, phBlock, List.filterMap_cons, List.filterMap_nil] at this ⊢
+          simp [this]
+        rcases hw with ⟨⟨rfl, rfl⟩, hw⟩ | ⟨rfl, hw⟩
+        · exact fin (e2s_seen e 2 t ctx ⟨true, ctx, []⟩ ⟨rfl, rfl, by simp⟩ hw)
+        · exact fin (e2s_seen e 3 t ctx ⟨true, ctx, []⟩ ⟨rfl, rfl, by simp⟩ hw)
+
+theorem wfT_block (t : Nat) (T : TagSet) (e : List TEv) : wfT 0 0 (phBlock t T ++ e) = wfT 0 0 e := by
+  simp [phBlock, wfT]
+
+theorem wfT_blocks (ts : List Nat) (e : List TEv) : wfT 0 0 ((ts.flatMap fun t => phBlock t 0) ++ e) = wfT 0 0 e := by
+  induction ts with
+  | nil => rfl
+  | cons t ts ih => simp only [List.flatMap_cons, List.append_assoc, wfT_block, ih]
+
+theorem e2sVT_wf : ∀ (e : List TEv) (a : E2sAbs), wfT 0 0 (e2sVT a e) = true
+  | [], _ => rfl
+  | x :: e, a => by
+      have ih := e2sVT_wf e (e2sNextT a x)
+      cases x with
+      | run => simp [e2sVT, e2sEmitT, wfT, ih]
+      | stopRun =>
+        simp only [e2sVT, e2sEmitT]
+        split
+        · simp only [List.append_assoc, wfT_blocks]; simp [wfT, ih]
+        · simpa using ih
+      | start t =>
+        cases hs : a.started <;> simp [e2sVT, e2sEmitT, e2sAutoT, hs, wfT, ih]
+      | stop t => simpa [e2sVT, e2sEmitT] using ih
+      | tags n g => simpa [e2sVT, e2sEmitT] using ih
+      | out t =>
+        cases hs : a.started
+        · simp only [e2sVT, e2sEmitT, e2sAutoT, hs, Bool.false_eq_true, ite_false, List.singleton_append,
+            List.cons_append, wfT, beq_self_eq_true, Bool.true_and]
+          rw [List.nil_append, wfT_block, ih]
+        · simp only [e2sVT, e2sEmitT, e2sAutoT, hs, ite_true, List.nil_append, wfT_block, ih]
+
+theorem block_disj (t : Nat) (T : TagSet) : (phBlock t T).all disjT = true := by simp [phBlock, disjT]
+
+theorem e2sVT_disj : ∀ (e : List TEv) (a : E2sAbs), (e2sVT a e).all disjT = true
+  | [], _ => rfl
+  | x :: e, a => by
+      have ih := e2sVT_disj e (e2sNextT a x)
+      simp only [e2sVT, List.all_append, ih, Bool.and_true]
+      cases x <;> simp only [e2sEmitT, e2sAutoT] <;> (try split) <;>
+        simp [disjT, block_disj, List.all_append, List.all_flatMap]
+
+theorem e2sVT_head (a : E2sAbs) (e : List TEv) : (e2sVT a (.run :: e)).head? = some .run := rfl
+
 end TTV.Lemmas.TagViews
